@@ -174,12 +174,14 @@ theorem idempotent_partial (E : Env) (hU : UnifyLaws E) (fuel fuel' : Nat) (v r 
   convert_idempotent hU hp h
 
 /-- Full statement of "a value that already conforms to the requested type converts to itself",
-placeholders in the target included.  FALSE of the code — see
+placeholders in the target included, for values without unknown parts (an unknown converts to an
+unknown that admits it but may carry weaker length bounds).  FALSE of the code — see
 `conforming_converts_to_itself_counterexample`; for targets without placeholders conformance is
 equality of types up to annotations and `identity` applies. -/
 def ConformingConvertsToItself : Prop :=
   ∀ (E : Env) (fuel : Nat) (v : Value) (want : Ty), UnifyLaws E → Value.wt v = true → want.wf = true →
-    conformsTo want v = true → convert E fuel v want = .ok v ∨ convert E fuel v want = .unmodelled
+    Payload.whollyKnown v.v = true → conformsTo want v = true →
+    convert E fuel v want = .ok v ∨ convert E fuel v want = .unmodelled
 
 /-- the witness (the consequence of `empty-collection-keeps-nested-placeholder` recorded under
 `idempotent`): a list of two lists of maps, the first EMPTY, conforms to list(list(map(placeholder)))
@@ -199,7 +201,7 @@ theorem conforming_converts_to_itself_counterexample :
 theorem conformingConvertsToItself_false : ¬ ConformingConvertsToItself := by
   intro h
   have := h Env.simple 8 ⟨.list (.list (.map .bool)), .seq [.seq [], .seq [.smap ["k"] [.b true]]]⟩
-    (.list (.list (.map .dyn))) unifyLaws_simple (by decide) (by decide)
+    (.list (.list (.map .dyn))) unifyLaws_simple (by decide) (by decide) (by decide)
     conforming_converts_to_itself_counterexample.2.1
   rw [conforming_converts_to_itself_counterexample.2.2.1] at this
   simp at this
